@@ -87,6 +87,14 @@ class CompressedFileHandler(FileHandler):
             except (AttributeError, OSError):
                 # Not backed by a file descriptor (e.g. a ZIP member): feed
                 # the data to the decompressor through a pipe instead.
-                subprocess.run([decompprog], input=fp.read(), stdout=wfile)
+                source = {"input": fp.read()}
             else:
-                subprocess.run([decompprog], stdin=fp, stdout=wfile)
+                source = {"stdin": fp}
+            if not self.protocol.check_tls():
+                subprocess.run([decompprog], stdout=wfile, **source)
+            else:
+                # The file descriptor of a TLS connection is the raw socket
+                # underneath it: the child must not write there.  Collect
+                # its output and send it through the connection instead.
+                resp = subprocess.run([decompprog], capture_output=True, **source)
+                wfile.write(resp.stdout)
